@@ -652,6 +652,27 @@ Definition classify_int (parse_float : string -> option string) (z : Z) : option
   else option_map JFloat (parse_float (print_Z_k z EmptyString)).
 
 (* ------------------------------------------------------------------------------------------------ *)
+(* tie to the sources: what tools/genx_jsonvalue.py reads from /repo (and from the serde_json version
+   /repo's Cargo.lock pins) today is what this file mirrors *)
+Definition jsonvalue_source_agrees : bool :=
+  list_eqb String.eqb jvalue_variants ["Null"; "Bool"; "Number"; "String"; "Array"; "Object"]%string &&
+  jvalue_map_is_btreemap &&
+  negb (existsb (fun f => existsb (String.eqb f) ["preserve_order"; "arbitrary_precision"; "float_roundtrip"]%string)
+                serde_json_features_requested) &&
+  negb (existsb (String.eqb "indexmap") serde_json_lock_deps) &&
+  (serde_json_recursion_limit =? recursion_limit) &&
+  String.eqb serde_json_hex_digits
+             (string_of_list_ascii (map hex_digit [0; 1; 2; 3; 4; 5; 6; 7; 8; 9; 10; 11; 12; 13; 14; 15])) &&
+  jvalue_display_is_serde_json_compact && jvalue_visit_map_inserts_in_order &&
+  jvalue_visit_f64_is_from_f64 && jvalue_from_std_rebuilds_map &&
+  list_eqb (pair_eqb String.eqb String.eqb) jvalue_eq_accessors
+           [("eq_i64", "as_i64"); ("eq_u64", "as_u64"); ("eq_f32", "as_f64"); ("eq_f64", "as_f64");
+            ("eq_bool", "as_bool"); ("eq_str", "as_str")]%string &&
+  list_eqb (pair_eqb String.eqb (list_eqb String.eqb)) jvalue_partialeq_numeric
+           [("eq_i64", ["i8"; "i16"; "i32"; "i64"; "isize"]); ("eq_u64", ["u8"; "u16"; "u32"; "u64"; "usize"]);
+            ("eq_f32", ["f32"]); ("eq_f64", ["f64"]); ("eq_bool", ["bool"])]%string.
+
+(* ------------------------------------------------------------------------------------------------ *)
 (* statements of C26 *)
 
 (* printing then parsing gives the value back, for every well-formed value of nesting depth below
